@@ -347,19 +347,19 @@ func enumHash(nk, ns, depth, cp int, c *vh.Ctx) (uint64, int) {
 
 func hashObs(h uint64, ob obs) uint64 {
 	if !ob.isGet {
-		h = vh.Mix(h, 0)
+		h = vh.MixL(h, 0)
 	} else {
-		h = vh.Mix(h, 1)
+		h = vh.MixL(h, 1)
 		switch {
 		case !ob.found:
-			h = vh.Mix(h, 0)
+			h = vh.MixL(h, 0)
 		case ob.v < 0:
-			h = vh.Mix(h, 1000000)
+			h = vh.MixL(h, 1000000)
 		default:
-			h = vh.Mix(h, uint64(ob.v)+1)
+			h = vh.MixL(h, uint64(ob.v)+1)
 		}
 	}
-	h = vh.Mix(h, 77)
+	h = vh.MixL(h, 77)
 	for _, e := range ob.dump {
 		k, v := uint64(e.k), uint64(e.v)
 		if e.k < 0 {
@@ -368,7 +368,7 @@ func hashObs(h uint64, ob obs) uint64 {
 		if e.v < 0 {
 			v = 999999
 		}
-		h = vh.Mix(vh.Mix(h, k), v)
+		h = vh.MixL(vh.MixL(h, k), v)
 	}
 	return h
 }
